@@ -6,6 +6,7 @@ import (
 	"bufio"
 	"fmt"
 	"io"
+	"os"
 	"os/exec"
 	"strconv"
 	"strings"
@@ -34,6 +35,42 @@ func solverKind(name string, timeoutMs int) SolverKind {
 	panic("unknown solver " + name)
 }
 
+var slowQ = os.Getenv("VP_SLOWQ") != ""
+var dumpSlow = os.Getenv("VP_DUMPSLOW")
+var dumpN int
+
+// DumpQuery writes a standalone SMT-LIB2 file for the conjunction.
+func DumpQuery(path string, conj []*Term) {
+	f, err := os.Create(path)
+	if err != nil {
+		return
+	}
+	defer f.Close()
+	seen := map[int]bool{}
+	var emit func(t *Term)
+	emit = func(t *Term) {
+		if t.op == OpConst || seen[t.id] {
+			return
+		}
+		seen[t.id] = true
+		for _, a := range t.args {
+			emit(a)
+		}
+		if t.op == OpVar {
+			fmt.Fprintf(f, "(declare-const %s %s)\n", t.name, t.sort)
+		} else {
+			fmt.Fprintf(f, "(define-fun t%d () %s %s)\n", t.id, t.sort, t.body())
+		}
+	}
+	for _, t := range conj {
+		emit(t)
+	}
+	for _, t := range conj {
+		fmt.Fprintf(f, "(assert %s)\n", t.ref())
+	}
+	fmt.Fprintln(f, "(check-sat)")
+}
+
 type Solver struct {
 	kind    SolverKind
 	cmd     *exec.Cmd
@@ -48,6 +85,12 @@ type Solver struct {
 	dead    bool
 	log     io.Writer
 	LastErr string
+	tactic  string
+	pushed  bool
+	closed  bool
+	hardLimit time.Duration
+	quickMs int
+	Kills   int
 }
 
 func StartSolver(k SolverKind) (*Solver, error) {
@@ -68,6 +111,9 @@ func StartSolver(k SolverKind) (*Solver, error) {
 	for _, p := range k.Pre {
 		s.send(p)
 	}
+	if strings.HasPrefix(k.Name, "z3") {
+		s.tactic = os.Getenv("VP_Z3TACTIC")
+	}
 	return s, nil
 }
 
@@ -76,6 +122,7 @@ func (s *Solver) Close() {
 		return
 	}
 	s.dead = true
+	s.closed = true
 	s.in.Close()
 	s.cmd.Process.Kill()
 	s.cmd.Wait()
@@ -92,31 +139,82 @@ func (s *Solver) send(line string) {
 // roundTrip sends a command followed by an echo marker and returns all output
 // lines before the marker.
 func (s *Solver) roundTrip(cmd string) []string {
+	if s.dead {
+		if !s.restart() {
+			return []string{"(error \"solver dead\")"}
+		}
+		// the caller's definitions are gone: it must re-define; signalled by error
+		return []string{"(error \"solver restarted\")"}
+	}
 	s.send(cmd)
 	s.send(`(echo "@@done@@")`)
-	var lines []string
-	for {
-		l, err := s.out.ReadString('\n')
-		l = strings.TrimSpace(l)
-		if strings.Contains(l, "@@done@@") {
-			break
-		}
-		if l != "" {
-			lines = append(lines, l)
-		}
-		if err != nil {
-			s.dead = true
-			lines = append(lines, "(error \"solver died\")")
-			break
-		}
+	type res struct {
+		lines []string
 	}
-	return lines
+	ch := make(chan res, 1)
+	out := s.out
+	go func() {
+		var lines []string
+		for {
+			l, err := out.ReadString('\n')
+			l = strings.TrimSpace(l)
+			if strings.Contains(l, "@@done@@") {
+				break
+			}
+			if l != "" {
+				lines = append(lines, l)
+			}
+			if err != nil {
+				lines = append(lines, "(error \"solver died\")")
+				break
+			}
+		}
+		ch <- res{lines}
+	}()
+	limit := s.hardLimit
+	if s.quickMs > 0 {
+		limit = time.Duration(s.quickMs)*time.Millisecond*2 + 2*time.Second
+	}
+	select {
+	case r := <-ch:
+		for _, l := range r.lines {
+			if strings.Contains(l, "solver died") {
+				s.dead = true
+			}
+		}
+		return r.lines
+	case <-time.After(limit):
+		// z3 4.8.12 does not honour its timeout inside preprocessing: kill it
+		s.Kills++
+		s.cmd.Process.Kill()
+		<-ch
+		s.cmd.Wait()
+		s.dead = true
+		return []string{"(error \"watchdog timeout\")"}
+	}
+}
+
+func (s *Solver) restart() bool {
+	n, err := StartSolver(s.kind)
+	if err != nil {
+		return false
+	}
+	n.hardLimit = s.hardLimit
+	s.cmd, s.in, s.out = n.cmd, n.in, n.out
+	s.defined = map[int]bool{}
+	s.dead = false
+	s.pushed = false
+	return true
 }
 
 // define emits definitions for every not-yet-defined term in the cone of t.
 func (s *Solver) define(t *Term) {
 	if t.op == OpConst || s.defined[t.id] {
 		return
+	}
+	if s.pushed {
+		s.send("(pop 1)")
+		s.pushed = false
 	}
 	// iterative post-order to avoid deep recursion on long chains
 	type fr struct {
@@ -149,11 +247,31 @@ func (s *Solver) define(t *Term) {
 	}
 }
 
+// CheckQuick is Check under a short timeout (z3 only); unknown on expiry.
+func (s *Solver) CheckQuick(ms int, conj ...*Term) string {
+	if !strings.HasPrefix(s.kind.Name, "z3") {
+		return s.Check(conj...)
+	}
+	if s.dead {
+		s.restart()
+	}
+	s.send(fmt.Sprintf("(set-option :timeout %d)", ms))
+	s.quickMs = ms
+	r := s.Check(conj...)
+	s.quickMs = 0
+	if !s.dead {
+		s.send("(set-option :timeout 4294967295)")
+	}
+	return r
+}
+
 // Check decides satisfiability of the conjunction of the given terms.
 // Returns "sat", "unsat" or "unknown" (timeouts, errors).
 func (s *Solver) Check(conj ...*Term) string {
 	if s.dead {
-		return "unknown"
+		if !s.restart() {
+			return "unknown"
+		}
 	}
 	var refs []string
 	for _, t := range conj {
@@ -170,11 +288,26 @@ func (s *Solver) Check(conj ...*Term) string {
 	var lines []string
 	if len(refs) == 0 {
 		lines = s.roundTrip("(check-sat)")
+	} else if s.tactic != "" {
+		if s.pushed {
+			s.send("(pop 1)")
+		}
+		s.send("(push 1)")
+		s.pushed = true
+		s.send("(assert (and true " + strings.Join(refs, " ") + "))")
+		lines = s.roundTrip("(check-sat-using " + s.tactic + ")")
 	} else {
 		lines = s.roundTrip("(check-sat-assuming (" + strings.Join(refs, " ") + "))")
 	}
 	s.Time += time.Since(t0)
 	s.Queries++
+	if d := time.Since(t0); dumpSlow != "" && d > 5*time.Second {
+		dumpN++
+		DumpQuery(fmt.Sprintf("%s/slow_%d_%d.smt2", dumpSlow, os.Getpid(), dumpN), conj)
+	}
+	if d := time.Since(t0); slowQ && d > 500*time.Millisecond {
+		fmt.Printf("SLOWQ %.2fs defined=%d refs=%v -> %v\n", d.Seconds(), len(s.defined), refs, lines)
+	}
 	res := "unknown"
 	for _, l := range lines {
 		if strings.HasPrefix(l, "(error") {
@@ -334,4 +467,134 @@ func parseAtom(a string) uint64 {
 	}
 	v, _ := strconv.ParseUint(a, 10, 64)
 	return v
+}
+
+
+// ---------------------------------------------------------------- portfolio
+
+type PortfolioStats struct {
+	Runs    int
+	Wins    map[string]int
+	Time    time.Duration
+	Timeout int
+}
+
+// Portfolio decides the conjunction with several one-shot solver processes in
+// parallel; the first definite answer wins. vars are reported in the model.
+func Portfolio(conj []*Term, vars []*Term, timeout time.Duration, ps *PortfolioStats) (string, []uint64, string) {
+	dir, err := os.MkdirTemp("", "vpq")
+	if err != nil {
+		return "unknown", nil, ""
+	}
+	defer os.RemoveAll(dir)
+	base := dir + "/q.smt2"
+	DumpQuery(base, conj)
+	// append model request
+	var names []string
+	seen := map[string]bool{}
+	b, _ := os.ReadFile(base)
+	txt := string(b)
+	for _, v := range vars {
+		if v.op == OpVar {
+			if !strings.Contains(txt, "(declare-const "+v.name+" ") && !seen[v.name] {
+				txt = fmt.Sprintf("(declare-const %s %s)\n", v.name, v.sort) + txt
+			}
+			seen[v.name] = true
+			names = append(names, v.name)
+		}
+	}
+	getv := ""
+	if len(names) > 0 {
+		getv = "(get-value (" + strings.Join(names, " ") + "))\n"
+	}
+	os.WriteFile(base, []byte("(set-option :produce-models true)\n"+txt+getv), 0o644)
+	os.WriteFile(dir+"/c.smt2", []byte("(set-option :produce-models true)\n(set-logic ALL)\n"+txt+getv), 0o644)
+	type ans struct {
+		res   string
+		vals  []uint64
+		who   string
+	}
+	cmds := [][]string{
+		{"z3-new", base},
+		{"z3", base},
+		{"cvc5", "--lang=smt2", dir + "/c.smt2"},
+	}
+	ch := make(chan ans, len(cmds))
+	var procs []*exec.Cmd
+	t0 := time.Now()
+	for _, c := range cmds {
+		cmd := exec.Command(c[0], c[1:]...)
+		procs = append(procs, cmd)
+		go func(cmd *exec.Cmd, who string) {
+			out, _ := cmd.Output()
+			lines := strings.Split(strings.TrimSpace(string(out)), "\n")
+			a := ans{res: "unknown", who: who}
+			if len(lines) > 0 {
+				switch strings.TrimSpace(lines[0]) {
+				case "sat":
+					a.res = "sat"
+					rest := strings.Join(lines[1:], " ")
+					vals := parseValues(rest)
+					if len(vals) == len(names) && !strings.Contains(rest, "(error") {
+						a.vals = vals
+					} else if len(names) > 0 {
+						a.res = "unknown"
+					}
+				case "unsat":
+					a.res = "unsat"
+				}
+			}
+			ch <- a
+		}(cmd, c[0])
+	}
+	res, who := "unknown", ""
+	var vals []uint64
+	timer := time.After(timeout)
+	got := 0
+loop:
+	for got < len(cmds) {
+		select {
+		case a := <-ch:
+			got++
+			if a.res != "unknown" {
+				res, vals, who = a.res, a.vals, a.who
+				break loop
+			}
+		case <-timer:
+			if ps != nil {
+				ps.Timeout++
+			}
+			break loop
+		}
+	}
+	for _, p := range procs {
+		if p.Process != nil {
+			p.Process.Kill()
+		}
+	}
+	if ps != nil {
+		ps.Runs++
+		ps.Time += time.Since(t0)
+		if who != "" {
+			if ps.Wins == nil {
+				ps.Wins = map[string]int{}
+			}
+			ps.Wins[who]++
+		}
+	}
+	// map values back to the requested variable order
+	if res == "sat" && vals != nil {
+		out := make([]uint64, len(vars))
+		k := 0
+		for i, v := range vars {
+			if v.op == OpVar {
+				out[i] = vals[k]
+				k++
+			} else if v.IsConst() {
+				out[i] = v.val
+			}
+		}
+		vals = out
+	}
+	return res, vals, who
 }
